@@ -271,6 +271,13 @@ def disable_default_fill_value(dataset_or_array: xarray.Dataset | xarray.DataArr
             variable.encoding["_FillValue"] = None
 
 
+#: Attributes that xarray moves to the encoding of a variable when decoding it.
+_DECODED_ATTRIBUTES = frozenset({
+    '_FillValue', 'missing_value', 'scale_factor', 'add_offset',
+    'units', 'calendar',
+})
+
+
 def dataset_like(sample_dataset: xarray.Dataset, new_dataset: xarray.Dataset) -> xarray.Dataset:
     """
     Take an example dataset, and another dataset with identical variable names
@@ -312,7 +319,7 @@ def dataset_like(sample_dataset: xarray.Dataset, new_dataset: xarray.Dataset) ->
         # a variable with both can not be saved.
         sample_attrs = {
             name: value for name, value in sample_variable.attrs.items()
-            if name not in new_variable.encoding
+            if not (name in _DECODED_ATTRIBUTES and name in new_variable.encoding)
         }
         _update_no_clobber(sample_attrs, new_variable.attrs)
         _update_no_clobber(sample_variable.encoding, new_variable.encoding)
